@@ -564,6 +564,40 @@ def established_case(ctx, scenario_idx, lose_at, partial, case):
             rec['d'].attach(d)
             proxies[idx] = rec
 
+        # an application-side registry of further proxies: the only strong references to them.  Whichever of their
+        # disconnect callbacks runs first empties the registry (and looks up one more proxy, synchronously, on the dying
+        # connection); all of them were alive when the connection was lost, so each callback runs once all the same
+        registry = {}
+        registry_cbs = {}
+        late_lookups = []
+        if scenario_idx % 4 == 2:
+            import gc
+
+            def make_cb(name_):
+                cnt = Counter('registry-' + name_)
+
+                def cb(o_, reason_):
+                    cnt(o_, reason_)
+                    if registry:
+                        registry.clear()
+                        gc.collect()
+                        if scenario_idx % 8 == 2:
+                            late = Counter('late-lookup')
+                            late_lookups.append(late)
+                            conn.getRemoteObject('org.verif.P', '/late', explicit).addCallback(
+                                lambda o2: o2.notifyOnDisconnect(late) and None)
+                return cnt, cb
+            for name_ in ('r0', 'r1', 'r2', 'r3'):
+                cnt_, cb_ = make_cb(name_)
+                registry_cbs[name_] = cnt_
+
+                def keep(o_, _n=name_, _cb=cb_):
+                    o_.notifyOnDisconnect(_cb)
+                    registry[_n] = o_
+                conn.getRemoteObject('org.verif.P', '/reg/' + name_, explicit if name_ != 'r1' else known_name).addCallback(keep)
+            del keep, cb_
+            ctx.count('scenarios_with_a_proxy_registry')
+
         def do(step):
             kind, a = step
             if kind == 'call':
@@ -783,6 +817,21 @@ def established_case(ctx, scenario_idx, lose_at, partial, case):
         else:
             if reentrant:
                 ctx.count('reentrant_calls_failed_by_loss', len(reentrant))
+        if registry_cbs:
+            for name_, cnt_ in registry_cbs.items():
+                if len(cnt_.calls) != 1:
+                    w['registry_callbacks'] = {n_: len(c_.calls) for n_, c_ in registry_cbs.items()}
+                    ctx.report('proxy-callback-count', 'disconnect callback of a proxy that was alive when the connection was '
+                               'lost (its last reference is dropped by another proxy\'s callback during the loss) ran %d '
+                               'times: %r' % (len(cnt_.calls), w['registry_callbacks']), w, case)
+                    break
+            else:
+                if registry_cbs:
+                    ctx.count('registry_proxies_notified', len(registry_cbs))
+            for late in late_lookups:
+                if len(late.calls) > 1:
+                    ctx.report('proxy-callback-count', 'a proxy looked up during the loss was notified %d times' % len(late.calls),
+                               w, case)
         for level, cb in cancelled:
             if cb.calls:
                 ctx.report('cancelled-callback-ran', 'a %s-level disconnect callback that had been cancelled ran %d times' % (
